@@ -55,7 +55,7 @@ STRENGTHENED = {
     "C08_7": "C15: a second job of the same backend object; caught by C15",
     "C09_6": "C09: caller's definitions under the standard names (situation by-def-std)",
     "C09_7": "C09: a later circuit in which this program's macro names are plain gates",
-    "C11_8": "NOT CAUGHT: needs a native gate with an INT parameter called with an integral float at top level; no fixture gate has an INT parameter",
+    "C11_8": "C11: the caller's table of the nb variant has a gate with an INT parameter, called at top level with 2.0",
     "C13_5": "universe: second calls m3 q[2] / m12 q of macros that pass their parameter on",
     "C13_6": "C13: branches that name qubits through whole-register aliases",
     "C14_5": "C14: positions size-vs-single, size-vs-slice, start-vs-single",
@@ -67,7 +67,7 @@ STRENGTHENED = {
     "C16_6": "C16: seeds one replacement away from aliasing a let",
     "C16_7": "C16: emulations sharing one gate table object over different alias slices",
     "C16_8": "C16 Space 3: long layout runs in a child process under a wall-clock limit",
-    "C17_7": "NOT CAUGHT: needs two anonymous Q.let of equal value; the harness matches anonymous lets by value and gives them distinct values",
+    "C17_7": "C17: anonymous lets of equal value (1, 1) in the names family",
     "C18_7": "C18: definitions called once before stretched_gates (flag bit 1)",
     "C20_7": "C20: pool gets C07's scope-probe programs",
 }
